@@ -178,7 +178,10 @@ def _fracs(rng, shape):
     flat = f.reshape(-1)
     for k in range(flat.size):
         r = rng.random()
-        flat[k] = 0.0 if r < 0.15 else _EDGE if r < 0.3 else -_EDGE if r < 0.45 else rng.uniform(-_EDGE, _EDGE)
+        # ... and, 10% of the time, points a few 1e-9 pixel widths outside the statement's 1e-9 band (4e-9, 1e-7 from a boundary, either
+        # side): inside the domain, and floating-point error in forming the query (~1e-14 pixel widths here) cannot move them across
+        flat[k] = (0.0 if r < 0.15 else _EDGE if r < 0.27 else -_EDGE if r < 0.39 else
+                   rng.choice([0.5 - 4e-9, -(0.5 - 4e-9), 0.5 - 1e-7, -(0.5 - 1e-7)]) if r < 0.49 else rng.uniform(-_EDGE, _EDGE))
     return f
 
 
